@@ -705,6 +705,18 @@ fn stmt_has_side_effects(s: &ast::Stmt) -> bool {
     }
 }
 
+/// Verification hooks (compiled only with `--cfg goml_verif`): the effect classification that
+/// dead-code elimination relies on, exposed so that an external model can be compared with it.
+#[cfg(goml_verif)]
+pub fn verif_expr_has_side_effects(e: &ast::Expr) -> bool {
+    expr_has_side_effects(e)
+}
+
+#[cfg(goml_verif)]
+pub fn verif_stmt_has_side_effects(s: &ast::Stmt) -> bool {
+    stmt_has_side_effects(s)
+}
+
 fn prune_dead_functions(file: ast::File) -> ast::File {
     let mut fn_map: HashMap<String, &ast::Fn> = HashMap::new();
     for item in &file.toplevels {
